@@ -1232,7 +1232,7 @@ def A18_cli_wiring(repo, clause):
                           slot="chargefile-filter", positive="robust" if verdict is False else False, undecided=verdict is None))
     reps = [c for c in calls_in(fn) if call_name(c) == "replicate"]
     mic_c = [c for c in reps if c.args and "mic" in ast.unparse(expand(fn, c.args[0]))]
-    ok = len(mic_c) == 1 and any(pol and is_none_test(t, "mic") == "isnot" for t, pol, k in norm_guards(fn, mic_c[0]))
+    ok = len(mic_c) == 1 and any(pol and is_none_test(expand(fn, t), "mic") == "isnot" for t, pol, k in norm_guards(fn, mic_c[0]))
     obs.append(Ob("A18", clause, fn, mic_c[0] if mic_c else fn.node, ok, "minimum-image cutoff determines the second replication (only when given)", slot="flow:mic"))
     if mic_c:
         obs.append(_mic_formula(fn, clause, mic_c[0]))
@@ -1533,7 +1533,8 @@ def _mic_formula(fn, clause, call):
         return False
     if isinstance(e, ast.Call) and call_name(e) == "ceil" and e.args and is_ratio(e.args[0]):
         den = e.args[0].right
-        ok = isinstance(den, ast.Call) and call_name(den) == "diag"
+        den = expand(fn, den)
+        ok = isinstance(den, ast.Call) and call_name(den) in ("diag", "diagonal")
         why = "ceil(2*mic / np.diag(cell))" if ok else "ceil(2*mic / %s): the divisor is not the cell diagonal" % ast.unparse(den)[:40]
     else:
         txt = ast.unparse(e)
@@ -1959,12 +1960,18 @@ def A18d_option_decisions(repo, clause):
     class Unk(Exception):
         pass
 
-    def tv(e, given):
+    def tv(e, given, data=None):
         if isinstance(e, ast.BoolOp):
-            vals = [tv(v, given) for v in e.values]
+            vals = [tv(v, given, data) for v in e.values]
             return all(vals) if isinstance(e.op, ast.And) else any(vals)
         if isinstance(e, ast.UnaryOp) and isinstance(e.op, ast.Not):
-            return not tv(e.operand, given)
+            return not tv(e.operand, given, data)
+        if data is not None and not ({x.id for x in ast.walk(e) if isinstance(x, ast.Name)} & set(given)):
+            # a condition on the data (cell shape ...), not on the options: a free boolean of the table
+            key_ = ast.unparse(e)
+            if key_ not in data:
+                raise KeyError(key_)
+            return data[key_]
         if isinstance(e, ast.Compare) and len(e.ops) == 1 and isinstance(e.left, ast.Name) and e.left.id in given \
                 and isinstance(e.comparators[0], ast.Constant) and e.comparators[0].value is None:
             if isinstance(e.ops[0], ast.Is):
@@ -1976,13 +1983,34 @@ def A18d_option_decisions(repo, clause):
         raise Unk(ast.unparse(e))
 
     def runs(node, given, only):
-        val = True
+        """can the stage run under this option pattern - for SOME values of the data-dependent conditions that share a guard with an option?"""
+        gs_ = []
         for t, pol, k in norm_guards(fn, node):
+            t = expand(fn, t)           # a flag such as `enforce_mic = mic is not None` stands for its definition
             names = {x.id for x in ast.walk(t) if isinstance(x, ast.Name)}
             if not names & set(only):
                 continue
-            val = val and (tv(t, given) == pol)
-        return val
+            gs_.append((t, pol))
+        atoms_ = []
+
+        def collect(e):
+            if isinstance(e, ast.BoolOp):
+                for v in e.values:
+                    collect(v)
+            elif isinstance(e, ast.UnaryOp) and isinstance(e.op, ast.Not):
+                collect(e.operand)
+            elif not ({x.id for x in ast.walk(e) if isinstance(x, ast.Name)} & set(given)):
+                if ast.unparse(e) not in atoms_:
+                    atoms_.append(ast.unparse(e))
+        for t, pol in gs_:
+            collect(t)
+        if len(atoms_) > 4:
+            raise Unk("too many data conditions")
+        for bits in itertools.product((False, True), repeat=len(atoms_)):
+            data = dict(zip(atoms_, bits))
+            if all(tv(t, given, data) == pol for t, pol in gs_):
+                return True
+        return False
 
     stages = []
     for c in calls_in(fn):
@@ -2006,6 +2034,9 @@ def A18d_option_decisions(repo, clause):
     # a stage may depend on its option only: an additional data-dependent condition makes the command line differ from the API sequence for some inputs
     for name, node, opts, want in stages:
         for t, pol, k in norm_guards(fn, node):
+            t = expand(fn, t)
+            if not pol:
+                continue     # a negated compound guard (an earlier elif arm) does not ADD a requirement of this form
             parts = t.values if isinstance(t, ast.BoolOp) else [t]
             names_t = {x.id for x in ast.walk(t) if isinstance(x, ast.Name)}
             if not names_t & set(opts):
@@ -2042,7 +2073,7 @@ def A18d_option_decisions(repo, clause):
                     return float(const_value(x)), {}
                 if isinstance(x, ast.Name):
                     return 1.0, {x.id: 1}
-                if isinstance(x, ast.Call) and call_name(x) == "diag":
+                if isinstance(x, ast.Call) and call_name(x) in ("diag", "diagonal"):
                     return 1.0, {"diag": 1}
                 if isinstance(x, ast.BinOp) and isinstance(x.op, (ast.Mult, ast.Div)):
                     c1, a1 = mono(x.left)
